@@ -34,8 +34,8 @@ loop it replaces.  A refutation at the SMT level is never reported by itself: ev
 obligation whose clause does not recognise a shape, and every locked obligation the changed code no longer
 generates is `unknown` and handed to the native replayer (replay/C10.py); VIOLATION = a failing input reproduced on
 the real code.
-Recorded known findings: F25, F26, F27 (known_findings.json) with
-proposed fixes for F25 (proposed_fixes/C10_F25.diff) and F27 (C10_F27.diff); F10 is fixed in /repo.
+Recorded known finding: F26 (known_findings.json).  F10, F25 and F27 are fixed in /repo: their input classes are checked
+like every other input (replay/C10.py exempts the class of a finding only while known_findings.json lists it as open).
 """
 import ast
 
@@ -46,7 +46,7 @@ from pyvc.contracts import FnContract, LoopSpec, Raises
 from pyvc.flow import ground_obligation
 from pyvc.state import HeapObj
 from pyvc.symex import Executor
-from pyvc.values import (NONE, VBool, VBytes, VExc, VExt, VFunc, VInt, VRef, VSeq, VStr, VTuple, VUnk,
+from pyvc.values import (NONE, VBool, VBytes, VDictC, VExc, VExt, VFunc, VInt, VRef, VSeq, VStr, VTuple, VType, VUnk,
                          ext_sort, fresh_name)
 from pyvc.verify import Maker, p_const, p_ext, p_int, p_obj, p_opt, p_str, p_unk
 from contracts import common
@@ -610,14 +610,121 @@ def cur_loop(lc):
     return lc.ex._loop_nodes[-1]
 
 
+class VNamed(VTuple):
+    """instance of a typing.NamedTuple / collections.namedtuple class of the module: a tuple whose items also have names"""
+    __slots__ = ("fields",)
+
+    def __init__(self, items, fields):
+        super().__init__(items)
+        self.fields = tuple(fields)
+
+
 class C10Executor(Executor):
     """Pack-local models of the abstract 7z header view (all ASSUMED views are listed in ASSUMED_MODELS)."""
+
+    # -- `def f(..., **opts)` / `g(**opts)`: keyword pass-through as an immutable dict with constant keys
+    def bind_params(self, fnode, args, kwargs, node, st=None, self_val=None):
+        kw = fnode.args.kwarg
+        if kw is None:
+            return super().bind_params(fnode, args, kwargs, node, st=st, self_val=self_val)
+        named = {p.arg for p in fnode.args.posonlyargs + fnode.args.args + fnode.args.kwonlyargs}
+        env = super().bind_params(fnode, args, {k: v for k, v in kwargs.items() if k in named}, node, st=st, self_val=self_val)
+        env[kw.arg] = VDictC({k: v for k, v in kwargs.items() if k not in named})
+        return env
+
+    def e_Call(self, n, st):
+        if not any(k.arg is None for k in n.keywords) or self.is_logger_call(n):
+            return super().e_Call(n, st)
+        out = []
+        for (s, f) in self.ev(n.func, st):
+            for (s2, args) in self.ev_list(n.args, s):
+                for (s3, kwvals) in self.ev_list([k.value for k in n.keywords], s2):
+                    kwargs = {}
+                    for k, v in zip(n.keywords, kwvals):
+                        if k.arg is not None:
+                            kwargs[k.arg] = v
+                        elif isinstance(v, VDictC) and all(isinstance(x, str) for x in v.items):
+                            kwargs.update(v.items)
+                        elif isinstance(v, VRef) and s3.obj(v.ref).kind == "dict" and all(isinstance(x, str) for x in s3.obj(v.ref).data):
+                            kwargs.update(s3.obj(v.ref).data)
+                        else:
+                            self.unsupported(n, "** of a value that is not a dict with constant string keys")
+                    out.extend(self.call(s3, f, args, kwargs, n))
+        return out
+
+    def apply_contract(self, st, c, args, kwargs, node, cl_frame=None):
+        covered = [n for (n, _m) in c.params if n not in getattr(c, "optional_extra", ())]
+        if len(args) > len(covered) or any(k not in covered for k in kwargs):
+            self.unsupported(node, f"call of {c.target.split('::')[-1]} passes an argument its contract does not speak about")
+        return super().apply_contract(st, c, args, kwargs, node, cl_frame=cl_frame)
+
+    # -- NamedTuple classes of the module
+    def _namedtuple_fields(self, name):
+        """[(field, default expr | None)] of a named-tuple class of the module -- `class X(NamedTuple)` or the functional forms
+        X = namedtuple("X", "a b c" | [...]) / X = NamedTuple("X", [("a", T), ...]) with literal field names -- else None"""
+        cls = self.module.classes.get(name)
+        if cls is not None:
+            if not any(ast.unparse(b).split(".")[-1] == "NamedTuple" for b in cls.bases):
+                return None
+            return [(b.target.id, b.value) for b in cls.body if isinstance(b, ast.AnnAssign) and isinstance(b.target, ast.Name)]
+        v = self.module.assigns.get(name)
+        if not (isinstance(v, ast.Call) and ast.unparse(v.func).split(".")[-1] in ("namedtuple", "NamedTuple") and len(v.args) == 2 and not v.keywords):
+            return None
+        spec = v.args[1]
+        if isinstance(spec, ast.Constant) and isinstance(spec.value, str):
+            names = spec.value.replace(",", " ").split()
+        elif isinstance(spec, (ast.List, ast.Tuple)):
+            names = []
+            for e in spec.elts:
+                e = e.elts[0] if isinstance(e, ast.Tuple) and e.elts else e
+                if not (isinstance(e, ast.Constant) and isinstance(e.value, str)):
+                    return None
+                names.append(e.value)
+        else:
+            return None
+        if not names or len(set(names)) != len(names) or not all(x.isidentifier() and not x.startswith("_") for x in names):
+            return None
+        return [(x, None) for x in names]
+
+    def global_name(self, name, node=None):
+        if (self.module.rel, name) not in self.reg.module_consts and name not in self.module.functions and name not in self.module.classes \
+                and name in self.module.assigns and self._namedtuple_fields(name) is not None:
+            return VType(name)
+        return super().global_name(name, node)
+
+    def construct(self, st, t, args, kwargs, node):
+        fields = self._namedtuple_fields(t.name) if isinstance(t, VType) else None
+        if fields is not None:
+            names = [f for f, _d in fields]
+            vals = dict(zip(names, args))
+            vals.update(kwargs)
+            for f, d in fields:
+                if f not in vals:
+                    if d is None:
+                        self.raise_in(st, self.mk_exc("TypeError"))
+                        return []
+                    vals[f] = self.ev(d, st.fork())[0][1]
+            if set(vals) != set(names) or len(args) > len(names):
+                self.raise_in(st, self.mk_exc("TypeError"))
+                return []
+            return [(st, VNamed([vals[f] for f in names], names))]
+        return super().construct(st, t, args, kwargs, node)
+
+    def get_attr(self, st, base, attr, node):
+        if isinstance(base, VNamed) and attr in base.fields:
+            return [(st, base.items[base.fields.index(attr)])]
+        return super().get_attr(st, base, attr, node)
 
     _role_stack = ()
     _loop_nodes = ()
 
     def symbolic_for(self, s, st, it):
         spec = None
+        if isinstance(it, VExt) and it.sort == "TarFile":
+            # ASSUMED (tarfile documentation): iterating a TarFile yields the members getmembers() lists, in the same order; which
+            # streams the container was opened on (seekable `r:` vs one-pass `r|`) is judged by the clauses about the open mode
+            self.exc_any(st.fork(), "TarFile.getmembers()")
+            it = tar_members_seq(it)
         if self.contract is not None:
             for key, sp in self.contract.loops.items():
                 if isinstance(key, tuple) and key[0] == "role" and sp.match(self, st, it, s):
@@ -730,6 +837,43 @@ class C10Executor(Executor):
             return [(st, self._quantify(st, v, True))]
         return super().b_all(st, args, kwargs, node)
 
+    def _filter_comp(self, n, st):
+        """[x for x in IT if C(x)] with an effect-free C over a symbolic IT: the subsequence of the elements satisfying C, in order
+        (PY-LIST-ORDER): view j -> IT[sel(j)], sel increasing, every selected element satisfies C"""
+        from pyvc.state import Frame
+        g = n.generators[0]
+        r0 = self.ev(g.iter, st)
+        if len(r0) != 1 or not isinstance(r0[0][1], VSeq):
+            return None
+        s2, it = r0[0]
+
+        def cond_at(j):
+            s3 = s2.fork()
+            s3.frames.append(Frame({}, len(s3.frames) - 1, s3.frame.fnode))
+            self.sinks.append([])
+            try:
+                sts = self.assign(g.target, it.elem(j), s3)
+                cs, cur = [], (sts[0] if len(sts) == 1 else None)
+                for c_ in g.ifs:
+                    r = self.ev(c_, cur) if cur is not None else []
+                    if len(r) != 1:
+                        return None
+                    cur = r[0][0]
+                    cs.append(self.truth(cur, r[0][1]).t)
+            finally:
+                raised = self.sinks.pop()
+            if cur is None or any(self.feasible(es.pc) for (es, _e) in raised) or cur.ghost != s3.ghost:
+                return None
+            return z3.And(cs)
+        j = z3.Int(fresh_name("j!flt"))
+        c0 = cond_at(j)
+        if c0 is None:
+            return None
+        sel, cnt = z3.Function(fresh_name("filtered_index"), I, I), z3.Int(fresh_name("filtered_count"))
+        s2.assume(z3.And(cnt >= 0, cnt <= it.length))
+        s2.assume(z3.ForAll([j], z3.Implies(z3.And(j >= 0, j < cnt), z3.And(sel(j) >= 0, sel(j) < it.length, cond_at(sel(j)))), patterns=[sel(j)]))
+        return [(s2, VSeq(cnt, lambda k: it.elem(sel(k)), it.ekind, it.is_bytes, tag=("filtered", it.tag, it, j, c0)))]
+
     def _pure_map_comp(self, n, st):
         """[E(t) for t in IT] over a symbolic IT where E has no effect and cannot raise (checked at a generic index): the
         sequence j -> E(IT[j])"""
@@ -782,6 +926,10 @@ class C10Executor(Executor):
         loop = ast.For(target=g.target, iter=ast.Name(itn, ast.Load()), body=body, orelse=[])
         ast.copy_location(loop, n)
         ast.fix_missing_locations(loop)
+        if g.ifs and isinstance(n.elt, ast.Name) and isinstance(g.target, ast.Name) and n.elt.id == g.target.id:
+            r = self._filter_comp(n, st)
+            if r is not None:
+                return r
         if not any(isinstance(k, tuple) and k[0] == "role" and sp.match(self, st, probe[0][1], loop) for k, sp in self.contract.loops.items()):
             r = self._pure_map_comp(n, st) if not g.ifs else None
             return r if r is not None else super().e_ListComp(n, st)
@@ -968,6 +1116,12 @@ class C10Executor(Executor):
         return super().contains(st, container, item, node)
 
     def get_index(self, st, base, idx, node):
+        if isinstance(base, VExt) and base.sort == "PathCounts" and isinstance(idx, VStr):
+            if not base.t.eq(COUNTER7):                  # a plain dict filled by the counting pass: a key is present iff it was counted
+                st = self.fork_raise(st, PCOUNT(idx.t) < 1, "KeyError")
+                if st is None:
+                    return []
+            return [(st, VInt(PCOUNT(idx.t)))]          # Counter[key]: 0 for a missing key
         if isinstance(base, VExt) and base.sort == "FolderMap" and isinstance(idx, VInt):
             k = ops.int_term(idx)
             st = self.fork_raise(st, z3.Not(HASF(k)), "KeyError")
@@ -1687,7 +1841,10 @@ def zkeep(zf, a):
 
 
 def keep7(a):
-    e = FINFO(a)
+    return keep7e(FINFO(a))
+
+
+def keep7e(e):
     return z3.And(z3.Not(ISDIR(e)), z3.Not(SKIP(FNAME(e), BASENAME(FNAME(e)))), z3.Not(USIZE(e) > MAXMEM))
 
 
@@ -1827,6 +1984,7 @@ def m_seq_startswith(ex, st, obj, args, kwargs, node):
 
 
 PCOUNT = z3.Function("entries_resolving_to_path", S, I)
+COUNTER7 = z3.Const("path_counter_object", ext_sort("PathCounts"))      # the collections.Counter form of the count (missing key -> 0, no KeyError)
 NORMPATH = z3.Function("os_path_normpath", S, S)
 
 
@@ -1835,16 +1993,59 @@ def m_pathcounts_get(ex, st, obj, args, kwargs, node):
     return [(st, VInt(PCOUNT(k.t)))] if isinstance(k, VStr) else ex.havoc_call(st, "PathCounts.get", args, node)
 
 
+def str_fn(name, F):
+    """uninterpreted str -> str library function; anything else is an unmodelled call"""
+    def m(ex, st, args, kwargs, node):
+        if len(args) == 1 and isinstance(args[0], VStr) and not kwargs:
+            return [(st, VStr(F(args[0].t)))]
+        return ex.havoc_call(st, name, args, node)
+    return m
+
+
+def m_posix_join(ex, st, args, kwargs, node):
+    """posixpath.join(a, b) (POSIX os.path.join): b when b is absolute, else a + '/' + b (no extra '/' when a is empty or ends in '/')"""
+    if len(args) == 2 and all(isinstance(a, VStr) for a in args) and not kwargs:
+        a, b = args[0].t, args[1].t
+        glue = z3.If(z3.Or(z3.Length(a) == 0, z3.SuffixOf(z3.StringVal("/"), a)), z3.Concat(a, b), z3.Concat(a, z3.StringVal("/"), b))
+        return [(st, VStr(z3.If(z3.PrefixOf(z3.StringVal("/"), b), b, glue)))]
+    return ex.havoc_call(st, "posixpath.join", args, node)
+
+
+def new_counter(ex, st, args, kwargs, node):
+    """collections.Counter(<normalised path of every non-directory entry>): the occurrence count per path (PCOUNT), the same
+    object the explicit counting pass builds; any other use of Counter is an unmodelled call"""
+    v = args[0] if len(args) == 1 and not kwargs else None
+    if isinstance(v, VSeq) and isinstance(v.tag, tuple) and v.tag and v.tag[0] == "genexp":
+        j = z3.Int(fresh_name("j!cnt"))
+        cond, elt = v.tag[1](j)
+        if isinstance(elt, VStr) and z3.simplify(elt.t).eq(z3.simplify(NORMPATH(FNAME(FINFO(j))))) and \
+                z3.simplify(cond).eq(z3.simplify(z3.Not(ISDIR(FINFO(j))))):
+            return [(st, VExt("PathCounts", COUNTER7))]
+    return ex.havoc_call(st, "collections.Counter", args, node)
+
+
+def m_pathcounts_index(ex, st, obj, args, kwargs, node):
+    return m_pathcounts_get(ex, st, obj, args, kwargs, node)
+
+
+def tar_members_seq(o):
+    return VSeq(TN(o.t), lambda i: VExt("TarInfo", TMEM(o.t, i)), "TarInfo", tag=("tarmembers", o.t))
+
+
 def install_members(reg):
+    reg.ext_models[("new", "collections.Counter")] = new_counter
     reg.method_models[("seq", "startswith")] = m_seq_startswith
     reg.method_models[("PathCounts", "get")] = m_pathcounts_get
-    reg.ext_models["os.path.normpath"] = lambda ex, st, args, kwargs, node: [(st, VStr(NORMPATH(args[0].t)))]
+    reg.ext_models["os.path.normpath"] = str_fn("os.path.normpath", NORMPATH)
     reg.method_models[("Stream7z", "seek")] = m_stream_seek
     reg.ext_models[("const", "os.SEEK_END")] = VInt(2)
     common.install_clock(reg)
     reg.module_consts[(ARCH, "_config")] = VExt("ArchiveConfig")
     reg.attr_models[("ArchiveConfig", "max_memory_size")] = lambda ex, st, o: VInt(MAXMEM)
-    reg.ext_models["os.path.basename"] = lambda ex, st, args, kwargs, node: [(st, VStr(BASENAME(args[0].t)))]
+    reg.ext_models["os.path.basename"] = str_fn("os.path.basename", BASENAME)
+    reg.ext_models["posixpath.basename"] = str_fn("posixpath.basename", BASENAME)
+    reg.ext_models["posixpath.join"] = m_posix_join
+    reg.ext_models["os.path.join"] = m_posix_join
     reg.ext_models["io.BytesIO"] = lambda ex, st, args, kwargs, node: (
         [(st, VExt("MemberIO", MEMIO(args[0].t)))] if args and isinstance(args[0], VExt) and args[0].sort == "Blob"
         else ex.havoc_call(st, "io.BytesIO", args, node))
@@ -1858,7 +2059,9 @@ def install_members(reg):
         return [(st, zf)]
     reg.ext_models[("new", "zipfile.ZipFile")] = new_zip
     reg.ext_models[("with", "ZipFile")] = with_passthrough
-    reg.method_models[("ZipFile", "infolist")] = lambda ex, st, o, a, k, n: [(st, VSeq(ZN(o.t), lambda i: VExt("ZipInfo", ZINFO(o.t, i)), "ZipInfo", tag=("zipinfos", o.t)))]
+    zip_infos = lambda o: VSeq(ZN(o.t), lambda i: VExt("ZipInfo", ZINFO(o.t, i)), "ZipInfo", tag=("zipinfos", o.t))      # noqa: E731
+    reg.method_models[("ZipFile", "infolist")] = lambda ex, st, o, a, k, n: [(st, zip_infos(o))]
+    reg.attr_models[("ZipFile", "filelist")] = lambda ex, st, o: zip_infos(o)          # the list infolist() returns (ASSUMED, zipfile source)
     reg.attr_models[("ZipInfo", "is_dir")] = lambda ex, st, o: VFunc("bound", o, "is_dir")
     reg.method_models[("ZipInfo", "is_dir")] = lambda ex, st, o, a, k, n: [(st, VBool(ZISDIR(o.t)))]
     reg.attr_models[("ZipInfo", "flag_bits")] = lambda ex, st, o: VInt(ZFLAGS(o.t))
@@ -1886,7 +2089,7 @@ def install_members(reg):
 
     def tar_getmembers(ex, st, o, a, k, n):
         ex.exc_any(st.fork(), "TarFile.getmembers()")
-        return [(st, VSeq(TN(o.t), lambda i: VExt("TarInfo", TMEM(o.t, i)), "TarInfo", tag=("tarmembers", o.t)))]
+        return [(st, tar_members_seq(o))]
     reg.method_models[("TarFile", "getmembers")] = tar_getmembers
     reg.attr_models[("TarInfo", "isreg")] = lambda ex, st, o: VFunc("bound", o, "isreg")
     reg.method_models[("TarInfo", "isreg")] = lambda ex, st, o, a, k, n: [(st, VBool(TISREG(o.t)))]
@@ -1932,6 +2135,9 @@ def install_members(reg):
     reg.method_models[("SevenZipFile", "list")] = szf_list
 
     def szf_extractall(ex, st, o, a, k, n):
+        if len(a) + len(k) != 1 or (k and "path" not in k):
+            # the model is extractall(path) = every member written below path; any further argument changes what is written
+            ex.unsupported(n, "SevenZipFile.extractall with arguments other than the target path")
         ex.exc_any(st.fork(), "SevenZipFile.extractall()")
         st.ghost["extractall"] = events(st, "extractall") + ((k.get("path", a[0] if a else None)),)
         return [(st, NONE)]
@@ -1965,13 +2171,35 @@ def install_members(reg):
     reg.method_models[("PyFile", "read")] = pyfile_read
 
 
+def item_fields(ex):
+    """field names of the work items of this module: those of its one 3-field named-tuple class, None = plain tuples"""
+    cands = [f for f in (ex._namedtuple_fields(c) for c in list(ex.module.classes) + list(ex.module.assigns)) if f is not None and len(f) == 3] \
+        if hasattr(ex, "_namedtuple_fields") else []
+    return [f for f, _d in cands[0]] if len(cands) == 1 else None
+
+
+def same_form(ex, v):
+    """the value a selection loop appended has the form every consumer of the work list is verified against (work_item):
+    a plain tuple, or an instance of the module's named-tuple class -- a plain tuple has no named fields, and vice versa"""
+    f = item_fields(ex)
+    return (isinstance(v, VNamed) and list(v.fields) == f) if f else not isinstance(v, VNamed)
+
+
+def work_item(ex, items, fields=None):
+    """a work item as the code builds it: a plain 3-tuple, or an instance of the module's 3-field NamedTuple when the selection
+    loop appended such instances (recorded from the append event) / when the module defines exactly one"""
+    if fields is None:
+        fields = item_fields(ex)
+    return VNamed(items, fields) if fields else VTuple(items)
+
+
 def p_worklist(prefix, first_sort):
     """an arbitrary list of (handle, filename, basename) work items"""
     n = z3.Int(f"{prefix}_len")
     h = z3.Function(f"{prefix}_item", I, ext_sort(first_sort))
     fn = z3.Function(f"{prefix}_filename", I, S)
     bn = z3.Function(f"{prefix}_basename", I, S)
-    return Maker(lambda ex, st, name: [(n >= 0, VSeq(n, lambda i: VTuple([VExt(first_sort, h(i)), VStr(fn(i)), VStr(bn(i))]), "tuple"))],
+    return Maker(lambda ex, st, name: [(n >= 0, VSeq(n, lambda i: work_item(ex, [VExt(first_sort, h(i)), VStr(fn(i)), VStr(bn(i))]), "tuple"))],
                  desc="list[(handle, filename, basename)]"), (n, h, fn, bn)
 
 
@@ -2093,15 +2321,16 @@ def member_contracts(reg_models=None):
                 ok = z3.Not(zkeep(zf, i - 1))
             elif len(new) == 1 and isinstance(new[0], VTuple) and len(new[0].items) == 3:
                 h, fn, bn = new[0].items
-                if isinstance(h, VExt) and h.sort == "ZipInfo" and isinstance(fn, VStr) and isinstance(bn, VStr):
+                if isinstance(h, VExt) and h.sort == "ZipInfo" and isinstance(fn, VStr) and isinstance(bn, VStr) and same_form(lc.ex, new[0]):
                     ok = z3.And(zkeep(zf, i - 1), h.t == e, fn.t == ZNAME(e), bn.t == BASENAME(ZNAME(e)))
             conj.append(ok)
         if lc.extra.get("phase") == "exit":
             # PY-LIST-ORDER: the list is the sequence of appended values in loop order = the kept members, in container order
             n = ZKEPT(zf, ZN(zf))
             lc.st.assume(sel_axiom(lambda j: ZSEL(zf, j), lambda a: ZKEPT(zf, a), lambda a: zkeep(zf, a), ZN(zf)))
-            lc.st.bind(wl, VSeq(n, lambda j: VTuple([VExt("ZipInfo", ZINFO(zf, ZSEL(zf, j))), VStr(ZNAME(ZINFO(zf, ZSEL(zf, j)))),
-                                                    VStr(BASENAME(ZNAME(ZINFO(zf, ZSEL(zf, j)))))]), "tuple", tag=("worklist", zf)))
+            ex_ = lc.ex
+            lc.st.bind(wl, VSeq(n, lambda j: work_item(ex_, [VExt("ZipInfo", ZINFO(zf, ZSEL(zf, j))), VStr(ZNAME(ZINFO(zf, ZSEL(zf, j)))),
+                                                             VStr(BASENAME(ZNAME(ZINFO(zf, ZSEL(zf, j)))))]), "tuple", tag=("worklist", zf)))
         return z3.And(conj + [z3.BoolVal(True)])
 
     def zip_disp_inv(lc):
@@ -2240,21 +2469,43 @@ def member_contracts(reg_models=None):
         conj = []
         wl = worklist_of(cur_loop(lc))
         ref = lc.entry.lookup(wl).ref
+        direct = not (isinstance(lc.seq.tag, tuple) and lc.seq.tag and lc.seq.tag[0] == "filtered")      # iterating szf.list() itself
+        if not direct and lc.extra.get("phase") == "init":
+            # a pre-filtered view is what the selection runs over: the filter must not drop a member that has to be selected
+            # (the view is the subsequence of szf.list() whose elements satisfy the filter condition, PY-LIST-ORDER)
+            base, jv, c0 = lc.seq.tag[2:5] if len(lc.seq.tag) == 5 else (None, None, None)
+            a = z3.Int("a!view")
+            be = base.elem(a) if isinstance(base, VSeq) else None
+            if not (isinstance(be, VExt) and be.sort == "FileInfo" and z3.simplify(be.t).eq(FINFO(a)) and z3.simplify(base.length).eq(N7)):
+                raise ops.Unsupported("7z selection loop: pre-filtered view of something that is not szf.list() itself")
+            conj.append(z3.ForAll([a], z3.Implies(z3.And(a >= 0, a < N7, keep7(a)), z3.substitute(c0, (jv, a))), patterns=[FINFO(a)]))
         if lc.extra.get("phase") == "preserve":
-            e = FINFO(i - 1)
+            ev = lc.seq.elem(i - 1)                      # the entry this iteration looked at (also through a pre-filtered view)
+            if not (isinstance(ev, VExt) and ev.sort == "FileInfo"):
+                raise ops.Unsupported("7z selection loop: not iterating FileInfo entries")
+            e = ev.t
             new = [v for (r, v) in new_events(lc, "appends") if r == ref]
             ok = z3.BoolVal(False)
             if len(new) == 0:
-                ok = z3.Not(keep7(i - 1))
+                ok = z3.Not(keep7e(e))
             elif len(new) == 1 and isinstance(new[0], VTuple) and len(new[0].items) == 3:
                 h, fn, bn = new[0].items
-                if isinstance(h, VExt) and h.sort == "FileInfo" and isinstance(fn, VStr) and isinstance(bn, VStr):
-                    ok = z3.And(keep7(i - 1), h.t == e, fn.t == FNAME(e), bn.t == BASENAME(FNAME(e)))
+                if isinstance(h, VExt) and h.sort == "FileInfo" and isinstance(fn, VStr) and isinstance(bn, VStr) and same_form(lc.ex, new[0]):
+                    ok = z3.And(keep7e(e), h.t == e, fn.t == FNAME(e), bn.t == BASENAME(FNAME(e)))
             conj.append(ok)
         if lc.extra.get("phase") == "exit":
-            lc.st.assume(sel_axiom(SEL7, KEPT7, keep7, N7))
-            v = VSeq(KEPT7(N7), lambda j: VTuple([VExt("FileInfo", FINFO(SEL7(j))), VStr(FNAME(FINFO(SEL7(j)))),
-                                                 VStr(BASENAME(FNAME(FINFO(SEL7(j)))))]), "tuple", tag=("worklist7",))
+            ex_ = lc.ex
+            if direct:
+                lc.st.assume(sel_axiom(SEL7, KEPT7, keep7, N7))
+                sel, cnt, src = SEL7, KEPT7(N7), (lambda k: FINFO(k))
+            else:
+                # selection over an already filtered view: the kept elements of THAT view, in its order (PY-LIST-ORDER)
+                sel, cnt = z3.Function(fresh_name("selected_of_view"), I, I), z3.Int(fresh_name("selected_count"))
+                seq = lc.seq
+                lc.st.assume(cnt >= 0)
+                src = (lambda k: seq.elem(k).t)
+            v = VSeq(cnt, lambda j: work_item(ex_, [VExt("FileInfo", src(sel(j))), VStr(FNAME(src(sel(j)))),
+                                                    VStr(BASENAME(FNAME(src(sel(j)))))]), "tuple", tag=("worklist7",))
             lc.st.bind(wl, v)
             lc.st.ghost["worklist7"] = v
         return z3.And(conj + [z3.BoolVal(True)])
@@ -3201,8 +3452,34 @@ FUNCTIONAL = ("._read_bytes", "._read_uint8", "._read_uint32", "._read_uint64", 
               "._decompress_folder", "._parse_pack_info", "._seek_back_one")
 
 
+def add_optional_params(c):
+    """trailing parameters of the REAL signature that the contract does not mention and whose default is a literal: the contract
+    speaks about the calls that omit them, so the body is verified with the default value; a call that passes one is outside the
+    contract (C10Executor.apply_contract: unknown).  Anything else (no literal default, not trailing) stays unbound = out of subset."""
+    c.optional_extra = ()
+    try:
+        rel, qual = c.target.split("::")
+        fnode = loader.module(rel).functions.get(qual)
+        if fnode is None or getattr(c, "closure", None):
+            return
+        a = fnode.args
+        sig = [x.arg for x in a.posonlyargs + a.args]
+        have = [n for (n, _m) in c.params]
+        if sig[:len(have)] != have:
+            return
+        dflt = dict(zip(sig[len(sig) - len(a.defaults):], a.defaults))
+        tail = [(x.arg, dflt.get(x.arg)) for x in (a.posonlyargs + a.args)[len(have):]] + list(zip([x.arg for x in a.kwonlyargs], a.kw_defaults))
+        if not tail or not all(isinstance(d, ast.Constant) and isinstance(d.value, (type(None), bool, int, str)) for _n, d in tail):
+            return
+        c.params = list(c.params) + [(n, p_const(d.value)) for n, d in tail]
+        c.optional_extra = tuple(n for n, _d in tail)
+    except Exception:  # noqa  never let the signature scan break the check: the function is then verified as before
+        c.optional_extra = ()
+
+
 def guard_contract(c):
     c.functional = c.target.endswith(FUNCTIONAL)
+    add_optional_params(c)
     orig_hyps = c.hyps
 
     def hyps(cx):
@@ -3238,6 +3515,9 @@ def contracts(reg):
     return [guard_contract(c) for c in out]
 
 
+OPTIONAL_ROLES = {"counts-the-entries-per-normalised-path"}
+
+
 def _missing_locked_as_unknown(c, rep):
     """an obligation recorded in the lock that the (changed) function no longer generates -- a loop whose role was not
     recognised, a clause attached to a statement that disappeared -- is neither proved nor refuted: `unknown`"""
@@ -3257,6 +3537,8 @@ def _missing_locked_as_unknown(c, rep):
         aux = oid[len(prefix):].split("#")[0] in ("inv-init", "inv-preserve", "unwind")
         if aux and getattr(c, "functional", False):
             continue        # the contract fixes the whole result (returns / grammar clause): how the code loops is not part of it
+        if aux and oid.split("#")[-1] in OPTIONAL_ROLES:
+            continue        # an auxiliary pass whose result is introduced abstractly: it may be written without a loop
         if oid.startswith(prefix) and oid not in have and "/call-pre#" not in oid and not oid.endswith(".BOUNDED"):
             rep.obligations.append({"id": oid, "kind": oid[len(prefix):].split("#")[0], "status": "unknown", "vcs": 0, "seconds": 0.0, "backends": {},
                                     "witness": None, "reason": "locked obligation not generated from the changed code (loop role / statement not recognised)", "loc": ""})
